@@ -2439,6 +2439,12 @@ func RecoverMEntryWALData() {
 		log.Warnf("RecoverMEntryWALData :Failed to create WAL reader for file %s: %v", filePath, err)
 		return
 	}
+	// A segment that was rotated after the last write of this WAL has its final entry in the
+	// metrics meta file already; the WAL holds an older state of it.
+	existingEntries, err := meta.GetLocalMetricsMetaEntries()
+	if err != nil {
+		log.Warnf("RecoverMEntryWALData : Failed to read the metrics meta entries: %v", err)
+	}
 	for {
 		mEntry, err := walIterator.Next()
 		if err != nil {
@@ -2447,6 +2453,9 @@ func RecoverMEntryWALData() {
 		}
 		if mEntry == nil {
 			break
+		}
+		if _, ok := existingEntries[mEntry.MSegmentDir]; ok {
+			continue
 		}
 		err = meta.AddMetricsMetaEntry(mEntry)
 		if err != nil {
